@@ -75,6 +75,7 @@ ops! {
     Reissue = "reissue", History;
     EqCheck = "eq_check", History;
     ComplTwice = "compl_twice", History;
+    Ballast = "ballast", History;
     BadChar = "bad_char", Fault;
     BadRange = "bad_range", Fault;
     StrBad = "str_bad", Fault;
@@ -382,7 +383,7 @@ impl OpKind {
                 (1, false)
             }
             ReNone | All | AllChar | Eps | Char | Range | SmtRange | Str | BadChar | BadRange
-            | StrBad | Evict => (0, false),
+            | StrBad | Evict | Ballast => (0, false),
         }
     }
 
